@@ -104,6 +104,7 @@ def build(x):
     pieces = [S.VEC_CAPACITY, S.MEM_REPLACE, PRELUDE]
     se = x.enum(FO, 'StreamElement')
     pieces.append(se)
+    pieces += SH.stream_element_inspectors(x)
     c = x.struct(FN, 'Coord'); c.text = '#[derive(Clone, Copy)]\n' + c.text
     pieces += [c, x.enum(FN, 'NetworkData'), x.struct(FN, 'NetworkMessage')]
     ns = x.method(FN, 'NetworkMessage', 'new_single'); ns.name_result('r')
